@@ -299,11 +299,17 @@ namespace GeographicLib {
      **********************************************************************/
     template<typename T> static T fract(const std::string& s) {
       std::string::size_type delim = s.find('/');
-      return
-        !(delim != std::string::npos && delim >= 1 && delim + 2 <= s.size()) ?
-        val<T>(s) :
-        // delim in [1, size() - 2]
-        val<T>(s.substr(0, delim)) / val<T>(s.substr(delim + 1));
+      if (!(delim != std::string::npos && delim >= 1 && delim + 2 <= s.size()))
+        return val<T>(s);
+      // delim in [1, size() - 2]
+      T num = val<T>(s.substr(0, delim)), den = val<T>(s.substr(delim + 1));
+      // Integer division by zero (and min / -1) is undefined
+      if (std::numeric_limits<T>::is_integer &&
+          (den == T(0) ||
+           (std::numeric_limits<T>::is_signed && den == T(-1) &&
+            num == (std::numeric_limits<T>::min)())))
+        throw GeographicErr("Cannot evaluate integer fraction " + s);
+      return num / den;
     }
 
     /**
